@@ -949,10 +949,12 @@ impl<'a, 'tcx> HirW<'a, 'tcx> {
         match &pe.kind {
             hir::PatExprKind::Lit { lit, negated } => {
                 o.push(("k", J::S("Lit".into())));
+                o.push(("inpat", J::B(true)));
                 o.extend(self.lit(lit, *negated));
             }
             hir::PatExprKind::Path(qp) => {
                 o.push(("k", J::S("Path".into())));
+                o.push(("inpat", J::B(true)));
                 let r = self.qpath_res(qp, pe.hir_id);
                 o.extend(r);
             }
